@@ -60,7 +60,7 @@ def handleArgs (j : Json) : Except String Json := do
     let out ← gs.mapM (fun g =>
       match Args.bindArgs g.sig.params g.args [] with
       | .ok vs => pure (Json.mkObj [("id", g.sig.id), ("values", toJson vs), ("path", toJson g.path),
-        ("nargs", toJson g.args.length)])
+        ("nargs", toJson g.args.length), ("args", toJson g.args)])
       | .error e => throw s!"bind failed: {repr e}")
     return Json.mkObj [("groups", Json.arr out.toArray), ("overrides", toJson pos.overrides),
       ("searchDir", toJson pos.searchDir)]
